@@ -11,6 +11,7 @@ type genStats struct {
 	mut, rebuild, share int
 	quirk               bool // some vector held a stored zero or a value-less index key
 	bad                 int
+	vars, setEmpty      int // SetVar ops / SET-on-an-empty-receiver compounds (directed stream of round 7)
 	pendFrom            int // IteratorFrom started with a pending zero as the first index key at/after the start
 }
 
@@ -56,6 +57,15 @@ func perm(r *Rng, n int) []int64 {
 // deletes the key), copies (Clone / Append* / Slice) that are iterated / sorted / reset afterwards
 // (Reset through shared cells), Sort after At() created a stored zero
 var smallMode = false
+
+// dirMode: directed stream of round 7 (main.go): short histories with the compound "SET on an empty receiver,
+// At() at a fresh position of one of the two vectors, iteration of the other" (case 27);
+// varMode (Real element types only): additionally SetVar (case 26: an element becomes a variable, two times out
+// of three at the point 0) and no operation that computes with values (Sort / Map / MapSet / Reduce), so that
+// every operation only moves, copies (SET / Set / Clone copy the gradient) or clears whole scalars and the
+// reading pv() of main.go commutes with the model's Z cells
+var dirMode = false
+var varMode = false
 
 func genNewSmall(r *Rng) Op {
 	n := r.Range(2, 5)
@@ -319,7 +329,21 @@ func genCase(r *Rng, tn string, malformed bool, cw *CaseWriter) (Case, genStats)
 	for i := 0; i < nv; i++ {
 		emit(genNew(r, false))
 	}
+	if varMode {
+		// every history of the Real stream holds a variable at the point 0 from the start
+		for t, v := range w.V {
+			if v.Dim() > 0 {
+				emit(Op{Op: "SetVar", T: t, I: int64(r.Intn(v.Dim()))})
+				st.mut++
+				st.vars++
+				break
+			}
+		}
+	}
 	n := r.Range(10, 40)
+	if dirMode {
+		n = r.Range(6, 16)
+	}
 	for k := 0; k < n && !w.Hung; k++ {
 		if len(w.V) == 0 {
 			emit(genNew(r, false))
@@ -352,8 +376,20 @@ func genCase(r *Rng, tn string, malformed bool, cw *CaseWriter) (Case, genStats)
 			//             0  1   2  3  4  5  6  7  8  9 10 11 12 13 14 15 16 17 18 19 20 21 22 23 24 25
 			wts = []int{1, 3, 12, 1, 2, 1, 4, 3, 2, 1, 5, 5, 4, 3, 2, 1, 0, 1, 1, 9, 3, 3, 7, 2, 1, 6}
 		}
+		wts = append(wts, 0, 0) // 26 SetVar (directed stream, Real types only), 27 SET on an empty receiver
+		wts[27] = 2
+		if smallMode {
+			wts[27] = 4
+		}
+		if dirMode {
+			wts[27] = 20
+			if varMode {
+				wts[26] = 45
+				wts[10], wts[15], wts[16], wts[17], wts[18] = 0, 0, 0, 0, 0
+			}
+		}
 		if d <= 0 {
-			wts[25] = 0
+			wts[25], wts[26], wts[27] = 0, 0, 0
 		}
 		if len(w.V) >= maxVecs {
 			wts[0], wts[11], wts[12], wts[13], wts[14], wts[22] = 0, 0, 0, 0, 0, 0
@@ -564,7 +600,11 @@ func genCase(r *Rng, tn string, malformed bool, cw *CaseWriter) (Case, genStats)
 					cw.Count(k)
 				}
 			}
-			switch origin := r.Intn(5); {
+			origin := r.Intn(5)
+			if varMode && origin == 3 {
+				origin = 0
+			}
+			switch {
 			case origin == 0 && len(stored) > 0: // zero written through At().SetFloat64(0)
 				emit(Op{Op: "SetAt", T: t, I: stored[r.Intn(len(stored))], X: 0})
 				cnt("pending:setzero")
@@ -603,6 +643,79 @@ func genCase(r *Rng, tn string, malformed bool, cw *CaseWriter) (Case, genStats)
 				}
 				emit(Op{Op: "IterFrom", T: t, I: q, B: r.Bool()})
 			}
+		case 26:
+			x := int64(0)
+			if r.Intn(3) == 0 {
+				x = val(r)
+			}
+			emit(Op{Op: "SetVar", T: t, I: idx(), X: x})
+			st.mut++
+			st.vars++
+			// two times out of three the vector (or a copy) is iterated right away: skip() meets the variable
+			switch r.Intn(3) {
+			case 0:
+				emit(Op{Op: "Iterate", T: t})
+			case 1:
+				emit(Op{Op: "IterFrom", T: t, I: int64(r.Intn(d)), B: r.Bool()})
+			}
+		case 27:
+			// SET on an EMPTY receiver u (a new vector without entries, or an existing one of the same dimension
+			// emptied by Reset + iteration) from t, then At() at a fresh position of one of the two, then the
+			// OTHER is iterated (and read); then the roles are exchanged
+			u := -1
+			for c, v := range w.V {
+				if c != t && v.Dim() == d && r.Bool() {
+					u = c
+					break
+				}
+			}
+			if u >= 0 {
+				emit(Op{Op: "Reset", T: u})
+				emit(Op{Op: "Iterate", T: u})
+			} else if len(w.V) < maxVecs {
+				emit(Op{Op: "New", I: int64(d)})
+				u = len(w.V) - 1
+			} else {
+				break
+			}
+			if w.Hung {
+				break
+			}
+			emit(Op{Op: "SETV", T: u, U: t})
+			st.mut++
+			st.setEmpty++
+			a, b := t, u
+			if r.Bool() {
+				a, b = u, t
+			}
+			for round := 0; round < 2 && !w.Hung; round++ {
+				post, _ := w.observe()
+				inIdx := map[int64]bool{}
+				for _, key := range post[a].Index {
+					inIdx[key] = true
+				}
+				for _, key := range post[b].Index {
+					inIdx[key] = true
+				}
+				var fresh []int64
+				for q := int64(0); q < int64(d); q++ {
+					if !inIdx[q] {
+						fresh = append(fresh, q)
+					}
+				}
+				if len(fresh) == 0 {
+					break
+				}
+				q := fresh[r.Intn(len(fresh))]
+				if r.Bool() {
+					emit(Op{Op: "At", T: a, I: q})
+				} else {
+					emit(Op{Op: "SetAt", T: a, I: q, X: int64(r.Range(1, 8))})
+				}
+				emit(Op{Op: "Iterate", T: b})
+				a, b = b, a
+			}
+			k += 5 // the compound counts as six operations of the history
 		}
 	}
 	// final full iteration of every vector (mutating: skip() runs on the vector itself)
